@@ -820,3 +820,97 @@ def install(I):
                                    "(reflexive, symmetric, transitive); the graphs are not modified between calls")
         yield SV(BOOL, f(a.tree, b.tree)), st
     I.lib["iso_rel"] = BuiltinVal("iso_rel", _iso_rel)
+    install_vf2(I)
+
+
+def install_vf2(I):
+    """A-vf2: networkx GraphMatcher(G1, G2, node_match, edge_match).subgraph_monomorphisms_iter() enumerates, each once,
+    exactly the dicts iso: V(G1) ⊇ dom -> V(G2) that are injective, onto V(G2), satisfy node_match(G1 attrs, G2 attrs) on
+    every mapped pair and send some G1 edge onto every G2 edge with edge_match.  (Only the soundness and
+    duplicate-freeness halves are stated as facts here; completeness is used by the bounded twin.)"""
+    from .interp import BuiltinVal, SV, IterSpec, ClassVal
+
+    class MatcherVal:
+        def __init__(self, g1, g2, nm, em):
+            self.g1, self.g2, self.nm, self.em = g1, g2, nm, em
+
+    def _new_matcher(I_, st, args, kw):
+        g1, g2 = args[0], args[1]
+        yield MatcherVal(g1, g2, kw.get("node_match", args[2] if len(args) > 2 else None),
+                         kw.get("edge_match", args[3] if len(args) > 3 else None)), st
+    for name in ("GraphMatcher", "networkx.algorithms.isomorphism.GraphMatcher", "networkx.algorithms.isomorphism.vf2userfunc.GraphMatcher",
+                 "DiGraphMatcher", "networkx.algorithms.isomorphism.DiGraphMatcher"):
+        I.lib[name] = BuiltinVal(name, _new_matcher)
+
+    MAPK = DICT(ANY, ANY)
+
+    def call_pure(st, f, args):
+        s = st.copy()
+        s.pure = True
+        if f is None:
+            return TRUE
+        outs = list(I.call(s, f, args, {}))
+        if len(outs) != 1:
+            raise Unsupported("match function forks")
+        return I.truthy(outs[0][0])
+
+    def mono_facts(st, M, iso):
+        """z3 Bool: `iso` (dict G1-node -> G2-node) is a monomorphism of G2 into G1 w.r.t. the matcher's functions"""
+        g1, g2 = M.g1, M.g2
+        n1, n2 = I.nx_fld(st, g1, "nodes").tree, I.nx_fld(st, g2, "nodes").tree
+        a1, a2 = I.nx_fld(st, g1, "adj").tree, I.nx_fld(st, g2, "adj").tree
+        na1, na2 = I.nx_fld(st, g1, "nattr"), I.nx_fld(st, g2, "nattr")
+        ea1, ea2 = I.nx_fld(st, g1, "eattr"), I.nx_fld(st, g2, "eattr")
+        dom, val = iso.tree
+        h, h2, p, q = (z3.Const(core.fresh_name(n), Val) for n in ("h", "h2", "p", "q"))
+        pre = z3.Function(core.fresh_name("pre"), Val, Val)        # a preimage of every pattern node
+        attr = lambda na, n: SV(ATTR, tselect(na.tree[1], n))
+        eattr = lambda ea, u, v: SV(ATTR, tselect(ea.tree[1], to_key(EDGE, (u, v))))
+        facts = [
+            z3.ForAll([h], z3.Implies(z3.Select(dom, h), z3.And(z3.Select(n1, h), z3.Select(n2, z3.Select(val, h))))),
+            z3.ForAll([h, h2], z3.Implies(z3.And(z3.Select(dom, h), z3.Select(dom, h2), h != h2),
+                                          z3.Select(val, h) != z3.Select(val, h2))),
+            z3.ForAll([p], z3.Implies(z3.Select(n2, p), z3.And(z3.Select(dom, pre(p)), z3.Select(val, pre(p)) == p))),
+            z3.ForAll([h], z3.Implies(z3.Select(dom, h), call_pure(st, M.nm, [attr(na1, h), attr(na2, z3.Select(val, h))]))),
+            z3.ForAll([h, h2], z3.Implies(z3.And(z3.Select(dom, h), z3.Select(dom, h2),
+                                                 z3.Select(a2, to_key(EDGE, (z3.Select(val, h), z3.Select(val, h2))))),
+                                          z3.And(z3.Select(a1, to_key(EDGE, (h, h2))),
+                                                 call_pure(st, M.em, [eattr(ea1, h, h2),
+                                                                      eattr(ea2, z3.Select(val, h), z3.Select(val, h2))])))),
+        ]
+        return facts
+
+    def _monos_iter(st, M):
+        n = z3.Int(core.fresh_name("n_monos"))
+        L = tfresh(LIST(MAPK), "monos")
+        i, j = z3.Int(core.fresh_name("i")), z3.Int(core.fresh_name("j"))
+        elt = lambda idx: SV(MAPK, tselect(L[1], idx))
+        facts = [n >= 0]
+        for f in mono_facts(st, M, elt(i)):
+            facts.append(z3.ForAll([i], z3.Implies(z3.And(0 <= i, i < n), f)))
+        # each monomorphism once
+        facts.append(z3.ForAll([i, j], z3.Implies(z3.And(0 <= i, i < j, j < n), z3.Not(I.py_eq(elt(i), elt(j))))))
+        I.define(facts)
+        I.assumptions_used.add("A-vf2: GraphMatcher.subgraph_monomorphisms_iter yields monomorphisms only, each once "
+                               "(completeness of VF2 is not used by the proofs)")
+        return IterSpec("seq", length=n, ekind=MAPK, elt=elt)
+
+    base_call_method = I.call_method
+
+    def call_method(st, recv, name, args, kw):
+        if isinstance(recv, MatcherVal):
+            if name == "subgraph_monomorphisms_iter":
+                yield _monos_iter(st, recv), st
+                return
+            raise Unsupported("GraphMatcher.%s" % name)
+        yield from base_call_method(st, recv, name, args, kw)
+    I.call_method = call_method
+
+    base_getattr = I.getattr
+
+    def getattr_(st, base, attr):
+        from .interp import BoundBuiltin
+        if isinstance(base, MatcherVal):
+            return BoundBuiltin(base, attr)
+        return base_getattr(st, base, attr)
+    I.getattr = getattr_
